@@ -391,6 +391,11 @@ func (bldr *BundleBuilder) HopCountBlock(args ...interface{}) *BundleBuilder {
 //   where Data is the payload's data and
 //   BlockControlFlags are _optional_ block processing control flags
 func (bldr *BundleBuilder) PayloadBlock(args ...interface{}) *BundleBuilder {
+	if len(args) == 0 || args[0] == nil {
+		bldr.err = fmt.Errorf("payload block needs a payload")
+		return bldr
+	}
+
 	var buf bytes.Buffer
 	if err := binary.Write(&buf, binary.LittleEndian, args[0]); err != nil {
 		bldr.err = err
